@@ -261,6 +261,7 @@ def run(ctx):
     ctx.extra["configurations"] = [dict(id=c["id"], entry=c["entry"], S=c["S"], born=c["mode"]) for c in cfgs]
 
     switch_table(ctx, cases)
+    history_part(ctx, cases)
 
 
 # ---------------------------------------------------------------------------------
@@ -566,3 +567,193 @@ def switch_table(ctx, cases):
         ctx.violation("nacswitch:" + nm, "zone-centre switch: %s fails" % nm,
                       dict(invariant=nm, offending_observations=badobs[:8]))
     ctx.traces += len(observed)
+
+
+# ---------------------------------------------------------------------------------
+CFG_HIST = """SPECIFICATION Spec
+CONSTANTS
+ MaxLen = %d
+ Observed <- MCObserved
+CHECK_DEADLOCK FALSE
+INVARIANT ReqCurrent
+INVARIANT ReqNeverUnset
+INVARIANT ImplAnswersFromCurrent
+INVARIANT ImplZeroBornNoOp
+"""
+
+
+def _trim(steps):
+    steps = list(steps)
+    while steps and steps[-1][0] != "run":
+        steps.pop()
+    return tuple(steps)
+
+
+def history_part(ctx, cases):
+    """NACHistory.tla: one dynamical-matrix object, parameters assigned and re-assigned, every query must answer
+    from the parameters currently set.  spec -> code: TLC enumerates the action sequences; code -> spec: the
+    answers recorded on real DynamicalMatrixWang / DynamicalMatrixGL / Phonopy objects are judged by TLC."""
+    from phonopy import Phonopy
+    from phonopy.harmonic.dynamical_matrix import (DynamicalMatrixGL, DynamicalMatrixWang,
+                                                   run_dynamical_matrix_solver_c)
+    from harness.c08_nac import quiet
+
+    maxlen = 4 if ctx.quick else 5
+    mc0 = "---- MODULE MC_NACHistory ----\nEXTENDS NACHistory\nMCObserved == {}\n====\n"
+    res = ctx.tlc("MC_NACHistory", cfg_text=CFG_HIST % maxlen, extra_files={"MC_NACHistory.tla": mc0},
+                  requirement=True, dump=True, keep=True, workers=4, coverage=not ctx.quick)
+    try:
+        states = tla_values.parse_dump(res.dump_path)
+    finally:
+        tlcmod.cleanup(res)
+    require_actions_fired(ctx, res, "NACHistory", ["SetNAC", "MakeGonze", "Run"])
+    seqs = set()
+    for st in states:
+        t = _trim(tuple(tuple(x) for x in st["hist"]))
+        if t:
+            seqs.add((st["method"], st["route"], t))
+    # Gonze-Lee on one object needs set, run, set, make, run (5 steps) to re-query after a re-assignment: added
+    # explicitly in the quick tier (the thorough tier enumerates length 5)
+    for route in ("solver", "dmrun"):
+        for a, b in (("A", "B"), ("A", "Z"), ("Z", "A"), ("B", "A")):
+            for q1 in ("gamma", "generic"):
+                for q2 in ("gamma", "comm", "generic"):
+                    seqs.add(("gonze", route, (("set", a), ("run", q1), ("set", b), ("make", "-"), ("run", q2))))
+    seqs = sorted(seqs)
+    if ctx.quick:
+        # all sequences of the Wang object and of Phonopy; Gonze-Lee: those with a re-assignment, plus a sample
+        keep = [s_ for s_ in seqs if s_[0] == "wang" or sum(1 for x in s_[2] if x[0] == "set") >= 2]
+        rest = [s_ for s_ in seqs if s_ not in set(keep)]
+        ctx.rng.shuffle(rest)
+        seqs = keep + rest[:100]
+
+    # ---- the concrete object and parameter sets ----------------------------------------------------
+    pick = [t for t in cases if t[0]["mode"] == "random" and t[0]["entry"] in ("tetab", "cscl", "wz") and t[2]["comm"]]
+    pick.sort(key=lambda t: len(t[1].ph0.supercell))
+    c, case, spec = pick[0]
+    bpA, epA = case.symmetrise_prim()
+    fA = case.factor
+    fB = [v for v in NAC_FACTORS.values() if abs(v - fA) > 1e-9][0]
+    P = dict(A=dict(born=bpA, dielectric=epA, factor=fA),
+             B=dict(born=0.5 * bpA, dielectric=1.3 * epA, factor=fB),
+             Z=dict(born=np.zeros_like(bpA), dielectric=epA, factor=fA))
+    g = spec["gamma"][-1]
+    n_p = case.to_prim_red(g["n"]) * 2
+    kA = case.k_cart_expected(g["K"])
+    gam_exp = dict(A=kA, B=kA * (0.25 / 1.3) * (fB / fA), Z=np.zeros_like(kA))
+    zero = np.zeros(3)
+    detS = int(round(np.linalg.det(np.array(c["S"], float))))
+    comm_states = sorted(spec["comm"], key=lambda st: len(st["qs"]))
+    cst = comm_states[0]
+    q_comm = case.to_prim_red(np.array(sorted(cst["qs"])[0], float) / detS)
+    comm_unique = len(cst["qs"]) == 1
+    q_gen = case.to_prim_red(np.array(spec["generic"][0]["n"], float) / c["pden"])
+    QP = dict(gamma=(zero, n_p), comm=(q_comm, None), generic=(q_gen, None))
+    plain = {k: case.plain_dm(v[0]) for k, v in QP.items()}
+    nsc = case.nac_scale(bpA, epA)
+    sc, prim, fc = case.ph0.supercell, case.ph0.primitive, case.fc_full
+
+    def new_dm(method):
+        cls = DynamicalMatrixWang if method == "wang" else DynamicalMatrixGL
+        with quiet():
+            return cls(sc, prim, fc.copy())
+
+    def query(dm, route, qc):
+        q, d = QP[qc]
+        with quiet():
+            if route == "dmrun":
+                dm.run(np.array(q, float), q_direction=d)
+                return np.array(dm.dynamical_matrix)
+            return np.array(run_dynamical_matrix_solver_c(dm, np.array([q], dtype="double"), d)[0])
+
+    # references at the arbitrary point: a fresh object that only ever saw token t
+    gen_ref = {}
+    for method in METHODS:
+        for t in "ABZ":
+            dm = new_dm(method)
+            dm.nac_params = dict(P[t])
+            gen_ref[(method, t)] = query(dm, "solver", "generic") - plain["generic"]
+        for a, b in (("A", "B"), ("A", "Z"), ("B", "Z")):
+            if np.abs(gen_ref[(method, a)] - gen_ref[(method, b)]).max() < 1e-4 * nsc:
+                raise tlcmod.MachineryError("history: parameter sets %s/%s indistinguishable at the arbitrary point" % (a, b))
+    for a, b in (("A", "B"), ("A", "Z"), ("B", "Z")):
+        if np.abs(gam_exp[a] - gam_exp[b]).max() < 1e-4 * nsc:
+            raise tlcmod.MachineryError("history: parameter sets indistinguishable at the zone centre")
+
+    def classify(method, qc, d):
+        dd = d - plain[qc]
+        scale = max(np.abs(plain[qc]).max(), nsc)
+        if not np.isfinite(dd).all():
+            return "other"
+        if qc == "comm":
+            tol = 1e-11 if method == "wang" else (1e-9 if comm_unique else 1e-3)
+            return "noop" if np.abs(dd).max() <= tol * scale else "changed"
+        cand = gam_exp if qc == "gamma" else {t: gen_ref[(method, t)] for t in "ABZ"}
+        hits = [t for t in "ABZ" if np.abs(dd - cand[t]).max() <= 1e-9 * scale]
+        return hits[0] if len(hits) == 1 else "other"
+
+    events = []
+    bad = []
+    for method, route, steps in seqs:
+        answers = []
+        try:
+            if route == "phonopy":
+                with quiet():
+                    ph = Phonopy(case.uc, supercell_matrix=c["S"], primitive_matrix=case.pm_name, log_level=0)
+                    ph.force_constants = fc.copy()
+                obj = ph
+            else:
+                obj = new_dm(method)
+            for act, arg in steps:
+                if act == "set":
+                    if route == "phonopy":
+                        with quiet():
+                            obj.nac_params = dict(P[arg], method=method)
+                    else:
+                        obj.nac_params = dict(P[arg])
+                    answers.append("-")
+                elif act == "make":
+                    with quiet():
+                        obj.make_Gonze_nac_dataset()
+                    answers.append("-")
+                else:
+                    if route == "phonopy":
+                        d = case.nac_dm(obj, QP[arg][0], "qpoints", direction=QP[arg][1])
+                    else:
+                        d = query(obj, route, arg)
+                    answers.append(classify(method, arg, d))
+                    ctx.count(("history", method, route, steps[:len(answers)]))
+        except Exception as e:
+            ctx.violation("nachist:raises", "a step of the object history raised %r" % e,
+                          dict(cfg=c, method=method, route=route, steps=steps, done=len(answers)))
+            continue
+        events.append(dict(method=method, route=route, steps=[list(x) for x in steps], answers=answers))
+    obs_tla = "{" + ",\n".join(to_tla(e) for e in events) + "}"
+    mc = "---- MODULE MC_NACHistory ----\nEXTENDS NACHistory\nMCObserved == %s\n====\n" % obs_tla
+    res2 = ctx.tlc("MC_NACHistory", cfg_text=CFG_HIST % maxlen, extra_files={"MC_NACHistory.tla": mc},
+                   requirement=False, extra_args=("-continue",), workers=4)
+    want = sum(len(e["steps"]) + 1 for e in events)
+    violated = sorted(set(nm for nm, _ in res2.violations))
+    if not violated and res2.distinct != want:
+        raise tlcmod.MachineryError("history: %d states for %d expected: a recorded event is not a behaviour of "
+                                    "NACHistory.tla" % (res2.distinct, want))
+    for nm in violated:
+        wit = None
+        for n2, tr in res2.violations:
+            if n2 == nm and tr:
+                st = tr[-1][1]
+                e = st.get("ev", {})
+                wit = dict(method=e.get("method"), route=e.get("route"), steps=e.get("steps"), answers=e.get("answers"),
+                           required=st.get("req"))
+                break
+        ctx.violation("nachist:" + nm, "object history: %s fails - a query did not answer from the parameters "
+                      "currently set" % nm, dict(invariant=nm, cfg=dict(entry=c["entry"], S=c["S"]), witness=wit,
+                                                 tokens="A = symmetrised tensors of the configuration, B = (0.5 Z, 1.3 eps, "
+                                                        "other unit factor), Z = zero Born charges"))
+    ctx.traces += len(events)
+    ctx.extra["history_sequences"] = len(events)
+    ctx.extra["history_object"] = dict(entry=c["entry"], S=c["S"], supercell_atoms=len(sc))
+    ctx.assumptions.append(
+        "Object history (NACHistory.tla): on a DynamicalMatrixGL object make_Gonze_nac_dataset() is called after "
+        "re-assigning nac_params before the next query (the setter keeps the short-range force constants of the "
+        "previous parameters); queries with a stale dataset are outside the requirement.")
